@@ -19,6 +19,7 @@ import (
 	"time"
 
 	"Havoc/pkg/handlers"
+	"Havoc/pkg/profile"
 
 	"github.com/gin-gonic/gin"
 
@@ -100,6 +101,50 @@ func (w *c12World) line(c *Ctx, in string) {
 			return
 		}
 		c.Emit("%s", in)
+	case "viaserver": // viaserver <redir 0|1> <edits n>: a listener started and then edited n times through a real Teamserver whose
+		// profile says (or not) that it sits behind a redirector; then an agent registers with a forwarded-for header
+		out := guardT(ms(15000), func() string {
+			rw := newRealWorld("c12")
+			defer rw.close()
+			rw.ts.Profile.Config.Demon = &profile.Demon{TrustXForwardedFor: parts[1] == "1"}
+			port := freePort()
+			cfg := handlers.HTTPConfig{Name: "viaserver", Hosts: []string{"127.0.0.1"}, HostBind: "127.0.0.1", HostRotation: "round-robin",
+				PortBind: strconv.Itoa(port), PortConn: strconv.Itoa(port), UserAgent: "ua-v", BehindRedir: parts[1] == "1"}
+			if err := rw.ts.ListenerStart(handlers.LISTENER_HTTP, cfg); err != nil {
+				return "STARTERR"
+			}
+			up := false
+			for i := 0; i < 200 && !up; i++ {
+				if cn, err := net.DialTimeout("tcp", fmt.Sprintf("127.0.0.1:%d", port), ms(50)); err == nil {
+					cn.Close()
+					up = true
+				} else {
+					time.Sleep(ms(5))
+				}
+			}
+			if !up {
+				return "NOLISTEN"
+			}
+			n, _ := strconv.Atoi(parts[2])
+			for i := 0; i < n; i++ { // what the operator's edit request becomes (dispatch.go): name, user agent, lists, proxy
+				rw.ts.ListenerEdit(handlers.LISTENER_HTTP, handlers.HTTPConfig{Name: "viaserver", UserAgent: "ua-v"})
+			}
+			body := initPackage(0x00c12001, 0x00c12001, bytes.Repeat([]byte{0x31}, 32), bytes.Repeat([]byte{0x32}, 16), regInfo{Hostname: "h", ProcName: "p"})
+			rq, _ := http.NewRequest("POST", fmt.Sprintf("http://127.0.0.1:%d/", port), bytes.NewReader(body))
+			rq.Header.Set("User-Agent", "ua-v")
+			rq.Header.Set("X-Forwarded-For", "203.0.113.8")
+			cl := &http.Client{Timeout: 3 * time.Second, Transport: &http.Transport{DisableKeepAlives: true}}
+			resp, err := cl.Do(rq)
+			if err != nil {
+				return "NOCONN"
+			}
+			resp.Body.Close()
+			if len(rw.ts.Agents.Agents) == 0 {
+				return "NOAGENT"
+			}
+			return "sender=" + rw.ts.Agents.Agents[0].Info.ExternalIP
+		})
+		c.Emit("%s => %s", in, out)
 	case "req": // req <peer 4|6> <method> <urihex> <headers name=valuehex,…>
 		if w.h == nil {
 			c.Emit("%s => NOLISTENER", in)
@@ -200,6 +245,12 @@ func runC12(c *Ctx) {
 	uriPool := []string{"/api/v1", "/index.php", "/a%20b", "/x?y=1", "/"}
 	hdrPool := []string{"X-Token: secret", "X-Multi: a: b", "Accept-Encoding: gzip", "Connection: close", "X-Case: MiXeD", "X-Colon: k:v", "Cookie: a=b; c=d", "NoSpace:here", "X-Empty: "}
 	respPool := []string{"Server: Apache", "Location: http://x.example/p?a=b", "X-Time: 12:30:45", "Cache-Control: no-cache", "X-Trim:   padded  ", "Set-Cookie: a=b; Path=/", "Broken"}
+	for _, redir := range []string{"0", "1"} { // through a real Teamserver: started, edited 0-2 times, then a registration with a forwarded-for header
+		for _, edits := range []int{0, 1, 2} {
+			c.Count("viaserver")
+			w.line(c, fmt.Sprintf("viaserver %s %d", redir, edits))
+		}
+	}
 	for c.Lines < c.N {
 		var uris, hdrs, resp []string
 		switch r.Intn(4) {
